@@ -275,6 +275,12 @@ def generate(rng, index, tier):
         'seed': rng.getrandbits(32), 'net': net, 'precise': precise,
         'reqs': reqs, 'msgs': msgs, 'cancels': cancels,
     }
+    if rng.random() < 0.1:
+        # the server connection is lost after the last request was issued
+        plan['server_loss'] = {'at': round(max(r['at'] for r in reqs) + rng.choice([0.05, 0.3, 1.0]), 3),
+                               'how': rng.choice(('close', 'abort'))}
+    if rng.random() < 0.1:
+        plan['raising_listener'] = rng.choice(('message', 'status'))
     return plan
 
 
@@ -340,6 +346,27 @@ def corpus(tier):
                 base, send_stall={'from': 0.3, 'until': 1.5},
                 reqs=[{'id': 0, 'form': 'execute', 'src': 'server', 'kind': kind, 'arg': arg, 'timeout': 6.0, 'at': 0.5}],
                 msgs=[{'arrive': reply_at, 'src': 'server', 'kind': kind, 'arg': arg, 'val': 3}]))
+    # 9. the server connection is lost while requests are pending: a timeout stays a timeout, futures stay pending
+    for how in ('close', 'abort'):
+        for form in ('execute', 'wait', 'future'):
+            req = {'id': 0, 'form': form, 'src': 'server', 'kind': 'status', 'arg': 'u1',
+                   'timeout': None if form == 'future' else 3.0, 'at': 0.0}
+            p = dict(base, server_loss={'at': 0.5, 'how': how}, reqs=[req, {'id': 1, 'form': 'execute', 'src': 'bob', 'kind': 'userinfo',
+                                                                         'arg': None, 'timeout': 3.0, 'at': 0.1}],
+                     msgs=[{'arrive': 1.0, 'src': 'bob', 'kind': 'userinfo', 'arg': None, 'val': 2}])
+            if form == 'future':
+                p['cancels'] = [{'req': 0, 'on_msg': None, 'plus_iter': 0, 'at': 5.0}]
+            out.append(p)
+    # 10. an application listener that raises while the answer is being handed round
+    for which in ('message', 'status'):
+        for form in ('execute', 'wait', 'future'):
+            req = {'id': 0, 'form': form, 'src': 'server', 'kind': 'status', 'arg': 'u1',
+                   'timeout': None if form == 'future' else 3.0, 'at': 0.0}
+            p = dict(base, raising_listener=which, reqs=[req, dict(req, id=1, at=0.1)],
+                     msgs=[{'arrive': 0.5, 'src': 'server', 'kind': 'status', 'arg': 'u1', 'val': 2}])
+            if form == 'future':
+                p['cancels'] = [{'req': 0, 'on_msg': None, 'plus_iter': 0, 'at': 5.0}, {'req': 1, 'on_msg': None, 'plus_iter': 0, 'at': 5.0}]
+            out.append(p)
     # 7. directory contents: wrong ticket first, right ticket second
     out.append(dict(
         base,
@@ -571,12 +598,38 @@ def _run(world: World, plan):
         await _sleep_until(t0[0] + st['until'])
         sess.writer.transport.resume_reading()
 
+    if plan.get('raising_listener'):
+        # an application listener (coroutine) that fails: the bus has to keep it away from everybody else
+        from aioslsk.events import UserStatusUpdateEvent
+
+        async def bad_listener(event):
+            world.net.fired['listener_raised'] += 1
+            await asyncio.sleep(0)
+            raise RuntimeError('application listener failed')
+        world.keep_alive.append(bad_listener)
+        client.events.register(UserStatusUpdateEvent if plan['raising_listener'] == 'status' else MessageReceivedEvent,
+                               bad_listener, priority=5)
+
+    async def server_loss():
+        """The server connection goes away (no reconnect) while requests are pending: nothing answers them any more, they
+        have to end the way an unanswered request ends."""
+        sl = plan.get('server_loss')
+        if not sl:
+            return
+        await _sleep_until(t0[0] + sl['at'])
+        sess = [x for x in server.sessions if not x.closed]
+        if sess:
+            world.net.fired['server_lost'] += 1
+            lost['at'] = loop.time()
+            (sess[-1].abort if sl.get('how') == 'abort' else sess[-1].close)()
+
     async def timed_cancels():
         for c in sorted([c for c in cancels if c.get('at') is not None], key=lambda c: c['at']):
             await _sleep_until(t0[0] + c['at'])
             _cancel_after(c['req'], c.get('plus_iter', 0))
 
     fresh = {}
+    lost = {}
 
     async def main():
         await world.start_client(alice)
@@ -588,6 +641,7 @@ def _run(world: World, plan):
         tasks.append(asyncio.ensure_future(send_msgs()))
         tasks.append(asyncio.ensure_future(timed_cancels()))
         tasks.append(asyncio.ensure_future(send_stall()))
+        tasks.append(asyncio.ensure_future(server_loss()))
         await asyncio.gather(*tasks)
         horizon = t0[0] + 14.0
         while loop.time() < horizon and any(not c.done for c in calls.values()):
@@ -600,6 +654,8 @@ def _run(world: World, plan):
                 call.task.cancel()
         await asyncio.sleep(1.0)
         # residue: a fresh request/answer pair still works
+        if lost:
+            return
         cmd = C.GetUserStatusCommand('fresh')
         fc = world.call(alice, 'fresh', client.execute, cmd, response=True, timeout=5.0)
         await asyncio.sleep(0.2)
@@ -737,7 +793,9 @@ def _run(world: World, plan):
     if left:
         world.violate('C12.residue', what='waiter left registered', n=min(len(left), 3))
     fc = fresh.get('call')
-    if fc is None or fc.outcome() != 'returned':
+    if lost:
+        world.probe('server_lost_while_requests_pending')
+    elif fc is None or fc.outcome() != 'returned':
         world.violate('C12.residue', what='fresh request/answer pair failed',
                       outcome=fc.outcome() if fc else None)
     for rec in world.loop.exc_contexts:
